@@ -113,6 +113,19 @@ def gen_c14(seed):
                 c["coef"] = {a: c["coef"].get(a, 1.0) for a in c["resid_args"]}
         if k < 2:
             sharing["data_dict"] = False
+    rp = rnd(seed, "pdomain")
+    if sharing["domains"] and rp.random() < 0.4:
+        # one parameter-dependent domain object, partially evaluated with a different value by each condition
+        avals = [0.0, 1.0, 2.0, 0.5]
+        rp.shuffle(avals)
+        k = 0
+        for c in conds:
+            if c["kind"] in ("pinn", "mean", "single", "adaptw") and rp.random() < 0.8:
+                c["sampler"]["x"] = {"dom": "pdisc", "kind": "random", "n": c["sampler"]["x"]["n"], "a": avals[k % 4]}
+                c["sampler"].setdefault("t", {"kind": "random", "n": rp.choice((1, 2))})
+                c["sampler"]["t"]["kind"] = "random"
+                k += 1
+        sharing["pdomain"] = k >= 2
     hist = []
     order = list(range(n))
     r.shuffle(order)
@@ -188,9 +201,18 @@ def gen_c04_don(seed):
         smp["n"] = r.choice((1, 2, 4, 7))
     cond = {"net": 0, "fset": 0, "sampler": smp, "resid": r.choice(("u_minus_f", "u_minus_c", "du_minus_f")),
             "c": r.choice((0.5, 1.0, 2.0)), "cls": r.choice(("pi", "pi", "single"))}
-    return {"format": 1, "property": "C04", "engine": "donsim", "seed": seed, "rng": H(seed, "rng"),
+    return _don04_random_fset({"format": 1, "property": "C04", "engine": "donsim", "seed": seed, "rng": H(seed, "rng"),
             "init": H(seed, "init") % (2 ** 31), "udim": r.choice((1, 1, 2)),
             "disc": [round(0.05 + 0.9 * j / 5, 4) for j in range(r.choice((3, 6)))],
             "nets": [{"thidden": r.choice(([4], [3, 3])), "bhidden": r.choice(([4], [5, 3])), "m": r.choice((2, 3, 5))}],
             "fsets": [{"fam": r.choice(("lin", "sin", "quad")), "ks": [round(r.uniform(0.1, 1.5), 3) for _ in range(r.choice((1, 2, 3, 4)))]}],
-            "conds": [cond], "evals": r.choice((1, 2, 3)), "fault": None}
+            "conds": [cond], "evals": r.choice((1, 2, 3)), "fault": None}, seed)
+
+
+def _don04_random_fset(case, seed):
+    r = rnd(seed, "gen-don04-fset")
+    if r.random() < 0.5:
+        fs = case["fsets"][0]
+        case["fsets"] = [{"fam": fs["fam"], "kn": len(fs["ks"])}]     # function parameters drawn afresh every iteration
+        case["evals"] = r.choice((2, 3, 4))
+    return case
